@@ -38,6 +38,13 @@ UNIVERSE = [(f"{('my-cache-%d' % i) if i % 2 else ('node%d' % i)}.abcxyz.{'0001.
 UNIVERSE.insert(1, (UNIVERSE[0][0], UNIVERSE[0][1], 11299))
 # 'blip_first': the first node fails, traffic makes the client evict it, it recovers (no reconfiguration)
 EVENTS = ("up", "down_last", "down_first", "replace_first", "replace_all", "blip_first")
+# 'backoff_first' (only with retries configured, variant +ra1): the first node holds two pooled connections (two
+# calls overlapped), one call on it fails, the node recovers at once - the client still has it in retry back-off
+EVENTS_RA1 = EVENTS + ("backoff_first",)
+
+
+def events_for(delivery):
+    return EVENTS_RA1 if "+ra1" in delivery else EVENTS
 
 
 def apply_event(L, ev):
@@ -52,7 +59,7 @@ def apply_event(L, ev):
         return [unused[0]] + L[1:] if unused else None
     if ev == "replace_all":
         return unused if unused else list(reversed(L))
-    if ev == "blip_first":
+    if ev in ("blip_first", "backoff_first"):
         return list(L)
     raise ValueError(ev)
 
@@ -66,6 +73,7 @@ class World:
         self.traffic = traffic
         self.tls = "+tls" in delivery
         self.pooled = "+pooled" in delivery  # use_pooling=True: every node gets a PooledClient
+        self.ra = 1 if "+ra1" in delivery else 0
         delivery = delivery.split("+")[0]
         self.net = stacks.new_net(None, servers=())
         self.net.tls_required = self.tls
@@ -84,7 +92,7 @@ class World:
     def _construct(self):
         self.client = AWSElastiCacheHashClient(ENDPOINT, socket_module=self.net.module(), use_vpc=self.use_vpc,
                                                default_noreply=False, connect_timeout=1, timeout=1,
-                                               retry_attempts=0, dead_timeout=600,
+                                               retry_attempts=self.ra, retry_timeout=5, dead_timeout=600,
                                                tls_context=self.net.tls() if self.tls else None,
                                                **({"use_pooling": True, "max_pool_size": 2} if self.pooled else {}))
 
@@ -127,6 +135,32 @@ class World:
             except Exception:
                 pass
         net.failing.pop(addr, None)
+        self.exc = None
+
+    def backoff(self, nkeys):
+        net, c = self.net, self.client
+        fqdn, ip, port = self.L[0]
+        addr = ("tcp", ip if self.use_vpc else fqdn, port)
+        name = f"{ip if self.use_vpc else fqdn}:{port}"
+        mine = [k for k in corpus(nkeys) if str(c.hasher.get_node(k)) == name][:3]
+        node = c.clients.get(name)
+        if node is None or len(mine) < 3:
+            return
+        net.call += 1
+        try:
+            if self.pooled:
+                held = node.client_pool.get()  # as a second thread in the middle of its call would
+                held.get(mine[0])
+                c.get(mine[1])
+                node.client_pool.release(held)
+            else:
+                c.get(mine[0])
+            for s in net.socks:
+                if s.addr == addr and s.conn is not None and s.state == "connected":
+                    s.conn.reset = True  # the node restarts: every connection to it breaks (the client has not noticed yet)
+            c.get(mine[2])
+        except Exception:
+            pass
         self.exc = None
 
     def expected(self):
@@ -182,6 +216,11 @@ class World:
         left = sorted({s.addr for s in net.open_sockets() if s.addr is not None} - ok_addrs)
         if left:
             P.append(("connection-to-replaced-node-left-open", f"after {what} sockets to {left} are still open"))
+        mine = {id(s) for s in stacks.reachable_socks(c)}
+        orphans = sorted({s.addr for s in net.open_sockets() if id(s) not in mine and s.addr is not None} - set(left))
+        if orphans:
+            P.append(("orphaned-connection-left-open", f"after {what} sockets to {orphans} are open but belong to no client "
+                      f"of the rotation (a discarded client object was not closed)"))
         return P
 
 
@@ -203,6 +242,9 @@ def run_history(L0, use_vpc, delivery, hist, nkeys, cut_step=None, cut=None, tra
         if ev == "blip_first":
             w.blip(nkeys)
             continue  # judged again after the next reconfiguration
+        if ev == "backoff_first":
+            w.backoff(nkeys)
+            continue
         w.reconfigure(L, cut if cut_step == i else None)
         if traffic or i == len(hist):
             out += [(i,) + p for p in w.judge(nkeys, f"reconfigure_nodes() #{i} ({ev}: now {len(L)} node(s), config version {w.version})")]
@@ -225,9 +267,9 @@ def _worker(job, chk):
         transitions = 0
         while frontier:
             hist = frontier.popleft()
-            for ev in EVENTS if len(hist) < depth else ():
+            for ev in events_for(delivery) if len(hist) < depth else ():
                 h2 = hist + (ev,)
-                if h2[-1] == "blip_first" and len(h2) >= depth:
+                if h2[-1] in ("blip_first", "backoff_first") and len(h2) >= depth:
                     continue  # a blip is only interesting when a reconfiguration follows
                 L, probs = run_history(L0, use_vpc, delivery, h2, nkeys)
                 if L is None:
@@ -267,6 +309,47 @@ def _worker(job, chk):
                 chk.outcome((use_vpc, "cut", n0, hist, cut))
                 _report(chk, probs, use_vpc, "cut", n0, hist, step, cut)
             chk.count("cut_positions", n - 1)
+    elif kind == "dns":
+        # a node replacement that keeps the host name: the name resolves to a new address and the endpoint
+        # advertises that address; with use_vpc=False the client connects by name and must reach the new machine
+        import socket as _rs
+        for pooled in (False, True):
+            net = stacks.new_net(None, servers=())
+            name, port = "my-cache-7.abcxyz.0001.use1.cache.amazonaws.com", 11211
+            old_ip, new_ip = "10.0.9.1", "10.0.9.2"
+            ep = net.add_server(EP_HOST, int(EP_PORT), cluster=(3, [(name, old_ip, port)]))
+            net.add_server(old_ip, port)
+            net.add_server(new_ip, port)
+            net.hosts[name] = [(_rs.AF_INET, old_ip)]
+            kw = {"use_pooling": True, "max_pool_size": 2} if pooled else {}
+            c = AWSElastiCacheHashClient(ENDPOINT, socket_module=net.module(), use_vpc=use_vpc, default_noreply=False,
+                                         connect_timeout=1, timeout=1, **kw)
+
+            def contacted():
+                e0 = len(net.events)
+                net.call += 1
+                try:
+                    c.get("some-key")
+                    exc = None
+                except Exception as e:  # noqa
+                    exc = e
+                return sorted({net.socks[e[3]].addr for e in net.events[e0:] if e[2] in ("connect", "connect_fail", "sendall") and e[3] >= 0}), exc
+
+            first, exc1 = contacted()
+            net.hosts[name] = [(_rs.AF_INET, new_ip)]
+            ep.cluster = (4, [(name, new_ip, port)])
+            net.call += 1
+            c.reconfigure_nodes()
+            second, exc2 = contacted()
+            chk.add()
+            chk.outcome(("dns", use_vpc, pooled, tuple(first), tuple(second)))
+            if first != [("tcp", old_ip, port)] or second != [("tcp", new_ip, port)] or exc1 or exc2:
+                chk.violation(f"node-replaced-under-the-same-name|use_vpc={use_vpc}",
+                              f"AWSElastiCacheHashClient(use_vpc={use_vpc}{', use_pooling=True' if pooled else ''}): node {name} is first at "
+                              f"{old_ip} (get contacted {first}{', raised %r' % exc1 if exc1 else ''}), then replaced: the name resolves to "
+                              f"{new_ip} and the endpoint advertises {name}|{new_ip}|{port}; after reconfigure_nodes() get contacted "
+                              f"{second}{', raised %r' % exc2 if exc2 else ''}, expected [('tcp', '{new_ip}', {port})]",
+                              {"kind": "dns", "use_vpc": use_vpc, "n0": n0})
     elif kind == "error":
         # an endpoint that answers ERROR (and then either stays silent or hangs up): the constructor and
         # reconfigure_nodes() must fail with a memcached error
@@ -322,20 +405,21 @@ def run(chk):
     jobs = []
     for use_vpc in (True, False):
         for n0 in range(1, 7):
-            for delivery in ("whole", "byte", "whole+tls", "whole+pooled"):
+            for delivery in ("whole", "byte", "whole+tls", "whole+pooled", "whole+pooled+ra1", "whole+ra1"):
                 if "+" in delivery and n0 not in (2, 3):
                     continue
                 jobs.append(("bfs", use_vpc, delivery, n0, chk.tier))
         for n0 in ((1, 3) if chk.tier == "quick" else (1, 2, 3, 6)):
             jobs.append(("cuts", use_vpc, "whole", n0, chk.tier))
         jobs.append(("error", use_vpc, "whole", 2, chk.tier))
+        jobs.append(("dns", use_vpc, "whole", 2, chk.tier))
     runner.parallel(chk, _worker, jobs)
 
 
 def replay(detail):
-    if detail["kind"] == "error":
+    if detail["kind"] in ("error", "dns"):
         tmp = runner.Check(PROPERTY, LEVEL, "quick", 0)
-        _worker(("error", detail["use_vpc"], "whole", detail["n0"], "quick"), tmp)
+        _worker((detail["kind"], detail["use_vpc"], "whole", detail["n0"], "quick"), tmp)
         return [v["what"] for v in tmp.violations.values()]
     L, probs = run_history(UNIVERSE[: detail["n0"]], detail["use_vpc"], detail["delivery"], tuple(detail["history"]), 60,
                            detail.get("cut_step"), detail.get("cut"), traffic=detail.get("traffic", True))
